@@ -789,7 +789,7 @@ Lemma step_write F hdr regs r :
   step_post F regs (m_step cc F hdr regs (OWrite r)) (s_step F hdr (map (abs F) regs) (OWrite r)).
 Proof.
   intros HI HG. simpl in *. rewrite nth_error_map'. destruct (nth_error regs r) as [[l|t]|] eqn:E; simpl;
-    [|apply post_same; exact HI|apply post_same; exact HI].
+    [|apply negb_true_iff in HG; rewrite HG; apply post_same; exact HI|apply post_same; exact HI].
   assert (HIl : InvL F l) by (apply (nth_error_Forall (Inv F) regs r (TLazy l) HI E)).
   destruct (l_write F [] l) as [b0|] eqn:E0; [|discriminate].
   destruct (l_write_hdr F [] hdr l b0 E0) as [b Hb]. rewrite Hb.
@@ -846,7 +846,7 @@ Lemma step_writeread F hdr regs r :
   step_post F regs (m_step cc F hdr regs (OWriteRead r)) (s_step F hdr (map (abs F) regs) (OWriteRead r)).
 Proof.
   intros HI HG. simpl in *. rewrite nth_error_map'. destruct (nth_error regs r) as [[l|t]|] eqn:E; simpl;
-    [|apply post_same; exact HI|apply post_same; exact HI].
+    [|apply negb_true_iff in HG; rewrite HG; apply post_same; exact HI|apply post_same; exact HI].
   destruct (l_set l) eqn:ES; [|discriminate].
   assert (Hx : rows_of_cols dv (length (l_buf l)) (map (fun f => parse_col F f (l_buf l)) (all_fields F)) = abs F (TLazy l)).
   { unfold abs. apply rows_of_cols_ext. intros f _. unfold a_col. rewrite ES. reflexivity. }
@@ -1112,9 +1112,9 @@ Qed.
 
 (* ================================================================ where the unguarded statement fails (witnesses) *)
 Definition W_bed3 : fmt :=
-  {| f_kinds := [KStr; KInt 0; KInt 0]; f_layout := LDelim; f_concat := true; f_nowrite := []; f_ragged := false; f_eager_write_fails := false; f_default_hdr := []; f_sid := [0] |}.
+  {| f_kinds := [KStr; KInt 0; KInt 0]; f_layout := LDelim; f_concat := true; f_nowrite := []; f_ragged := false; f_eager_write_fails := false; f_write_needs_context := false; f_default_hdr := []; f_sid := [0] |}.
 Definition W_fastq : fmt :=
-  {| f_kinds := [KStr; KStr; KStr]; f_layout := LFastq; f_concat := false; f_nowrite := [2]; f_ragged := false; f_eager_write_fails := false; f_default_hdr := []; f_sid := [] |}.
+  {| f_kinds := [KStr; KStr; KStr]; f_layout := LFastq; f_concat := false; f_nowrite := [2]; f_ragged := false; f_eager_write_fails := false; f_write_needs_context := false; f_default_hdr := []; f_sid := [] |}.
 (* "c\t1\t2\n" *)
 Definition W_rec : rawrec := {| r_fields := [[99%Z]; [49%Z]; [50%Z]]; r_raw := [99; 9; 49; 9; 50; 10]%Z |}.
 (* "@r\nA\n+\nI\n" *)
@@ -1194,7 +1194,7 @@ Qed.
 (* SAM: a row whose optional-tags field is empty is written without the separating tab by the modified lazy
    write (SAMBuffer.join_fields) and with it by the eager writer — on a canonically spelled record "a\t\n" *)
 Definition W_sam : fmt :=
-  {| f_kinds := [KStr; KStr]; f_layout := LSam; f_concat := true; f_nowrite := []; f_ragged := false; f_eager_write_fails := false; f_default_hdr := []; f_sid := [] |}.
+  {| f_kinds := [KStr; KStr]; f_layout := LSam; f_concat := true; f_nowrite := []; f_ragged := false; f_eager_write_fails := false; f_write_needs_context := false; f_default_hdr := []; f_sid := [] |}.
 Definition W_samrec : rawrec := {| r_fields := [[97%Z]; []]; r_raw := [97; 9; 10]%Z |}.
 Lemma sam_empty_tags_refuted :
   exists F hdr recs prog, wf F recs /\
